@@ -228,9 +228,11 @@ theorem Frame.clearWrittenEvents (a : Acc) : Frame a (clearWrittenEvents a) := b
   refine Frame.trans ?_ (foldl_emit_frame _ _)
   frame_simp
 
-theorem Frame.writeErrorResponse {a a' : Acc} {dst : Nat} {seq : Option Nat}
-    (h : writeErrorResponse a dst seq = some a') : Frame a a' := by
+theorem Frame.writeErrorResponse {a a' : Acc} {dst : Nat} {bc : Bool} {seq : Option Nat}
+    (h : writeErrorResponse a dst bc seq = some a') : Frame a a' := by
   unfold Dnp3.writeErrorResponse at h
+  split at h
+  · simp at h; subst h; exact Frame.refl _
   split at h
   · simp at h; subst h; exact Frame.refl _
   · split at h
@@ -1083,24 +1085,27 @@ theorem writeSolicited_shape {a a' : Acc} {dst : Nat} {r r' : Resp} (h : writeSo
 
 /-- the `result` of `handleRequestFromIdle` -/
 def idleResult (a : Acc) (f : Frag) (ctrl : AppCtrl) (func : Nat) (objects : Except Nat (List ObjHdr))
-    (raw : List Nat) : Option (Acc × Option LastReq) :=
+    (raw : List Nat) : Option (Acc × Option (LastReq × Bool)) :=
   let seq := ctrl.seq
   match classify a.1 f ctrl func objects with
-    | .malformed e => some (a, some ⟨seq, f.data, some (emptySolicited seq e), none⟩)
+    | .malformed e => some (a, some (⟨seq, f.data, some (emptySolicited seq e), none⟩, false))
     | .newRead hs | .repeatRead _ hs =>
       let (db, iin2) := dbSelectAll a.1.db hs
       let (s, r, series) := formatReadResponse { a.1 with db := db } true seq iin2
-      some ((s, a.2), some ⟨seq, f.data, some r, series⟩)
+      some ((s, a.2), some (⟨seq, f.data, some r, series⟩, false))
     | .newNonRead hs =>
       match handleNonRead a func seq f.id hs raw with
       | none => none
-      | some (a, r) => some (a, some ⟨seq, f.data, r, none⟩)
+      | some (a, r) => some (a, some (⟨seq, f.data, r, none⟩, false))
     | .repeatNonRead last =>
       let s := a.1
       let s := match s.select with
-        | some sel => { s with select := some { sel with frameId := f.id } }
+        | some sel =>
+          if func = 3 ∧ sel.seq = seq ∧ (sel.frameId + 1) % 4294967296 = f.id ∧ sel.objects = raw then
+            { s with select := some { sel with frameId := f.id } }
+          else s
         | none => s
-      some ((s, a.2), some ⟨seq, f.data, last, none⟩)
+      some ((s, a.2), some (⟨seq, f.data, last, s.lastReq.bind (·.series)⟩, true))
     | .broadcast mode =>
       match processBroadcast a f mode ctrl func objects raw with
       | none => none
@@ -1108,14 +1113,18 @@ def idleResult (a : Acc) (f : Frag) (ctrl : AppCtrl) (func : Nat) (objects : Exc
     | .solConfirm _ | .unsolConfirm _ => some (a, none)
 
 /-- the writing part of `handleRequestFromIdle` -/
-def idleTail (f : Frag) (result : Option (Acc × Option LastReq)) : Option (Acc × Option Series) :=
+def idleTail (f : Frag) (result : Option (Acc × Option (LastReq × Bool))) : Option (Acc × Option Series) :=
   match result with
   | none => none
   | some (a, none) => some (a, none)
-  | some (a, some lr) =>
+  | some (a, some (lr, echo)) =>
     match lr.response with
     | none => some (({ a.1 with lastReq := some lr }, a.2), lr.series)
     | some r =>
+      if echo then
+        let a := repeatSolicited a f.src r
+        some (({ a.1 with lastReq := some lr }, a.2), lr.series)
+      else
       match writeSolicited a f.src r with
       | none => none
       | some (a, r) =>
@@ -1127,11 +1136,12 @@ theorem handleRequestFromIdle_eq (a : Acc) (f : Frag) (ctrl : AppCtrl) (func : N
     handleRequestFromIdle a f ctrl func objects raw = idleTail f (idleResult a f ctrl func objects raw) := rfl
 
 /-- the tail only rewrites `lastReq`, `lastBroadcast`, `solBuf` and transmits at most one fragment -/
-theorem idleTail_shape {f : Frag} {res : Option (Acc × Option LastReq)} {a' : Acc} {sr : Option Series}
+theorem idleTail_shape {f : Frag} {res : Option (Acc × Option (LastReq × Bool))} {a' : Acc} {sr : Option Series}
     (h : idleTail f res = some (a', sr)) :
     ∃ a1 olr lq lb sb l, res = some (a1, olr) ∧
       a' = ({ a1.1 with lastReq := lq, lastBroadcast := lb, solBuf := sb }, a1.2 ++ l) ∧
       (olr = none → lq = a1.1.lastReq) ∧
+      (∀ lr e, olr = some (lr, e) → lrKey lq = some (lr.seq, lr.frag)) ∧
       (l = [] ∨ ∃ bytes, l = [.tx f.src bytes]) := by
   unfold idleTail at h
   split at h
@@ -1139,32 +1149,50 @@ theorem idleTail_shape {f : Frag} {res : Option (Acc × Option LastReq)} {a' : A
   · rename_i a1
     simp only [Option.some.injEq, Prod.mk.injEq] at h
     obtain ⟨rfl, -⟩ := h
-    exact ⟨a1, none, a1.1.lastReq, a1.1.lastBroadcast, a1.1.solBuf, [], rfl, by simp, fun _ => rfl, .inl rfl⟩
-  · rename_i a1 lr
+    exact ⟨a1, none, a1.1.lastReq, a1.1.lastBroadcast, a1.1.solBuf, [], rfl, by simp, fun _ => rfl,
+      fun _ _ h => by simp at h, .inl rfl⟩
+  · rename_i a1 lr echo
+    have hkey : ∀ lr' e, some (lr, echo) = some (lr', e) → lrKey (some lr) = some (lr'.seq, lr'.frag) := by
+      intro lr' e h
+      simp only [Option.some.injEq, Prod.mk.injEq] at h
+      rw [← h.1]; rfl
     split at h
     · simp only [Option.some.injEq, Prod.mk.injEq] at h
       obtain ⟨rfl, -⟩ := h
-      exact ⟨a1, some lr, some lr, a1.1.lastBroadcast, a1.1.solBuf, [], rfl, by simp, by simp, .inl rfl⟩
+      exact ⟨a1, some (lr, echo), some lr, a1.1.lastBroadcast, a1.1.solBuf, [], rfl, by simp, by simp, hkey,
+        .inl rfl⟩
     · split at h
-      · contradiction
-      · rename_i a2 r2 hw
-        obtain ⟨lb, sb, bytes, rfl⟩ := writeSolicited_shape hw
-        simp only [Option.some.injEq, Prod.mk.injEq] at h
+      · simp only [Option.some.injEq, Prod.mk.injEq] at h
         obtain ⟨rfl, -⟩ := h
-        exact ⟨a1, some lr, _, lb, sb, [.tx f.src bytes], rfl, rfl, by simp, .inr ⟨bytes, rfl⟩⟩
+        exact ⟨a1, some (lr, echo), some lr, a1.1.lastBroadcast, _, [.tx f.src _], rfl, rfl, by simp, hkey,
+          .inr ⟨_, rfl⟩⟩
+      · split at h
+        · contradiction
+        · rename_i a2 r2 hw
+          obtain ⟨lb, sb, bytes, rfl⟩ := writeSolicited_shape hw
+          simp only [Option.some.injEq, Prod.mk.injEq] at h
+          obtain ⟨rfl, -⟩ := h
+          refine ⟨a1, some (lr, echo), _, lb, sb, [.tx f.src bytes], rfl, rfl, by simp, ?_, .inr ⟨bytes, rfl⟩⟩
+          intro lr' e h
+          simp only [Option.some.injEq, Prod.mk.injEq] at h
+          rw [← h.1]; rfl
 
 /-- every `.control .select` callback in `l` reports status 0 -/
 def SelectAllZero (l : List OOut) : Prop :=
   ∀ g v i obj st, OOut.cb (.control .select g v i obj st) ∈ l → st = 0
 
 /-- how `select` may change when one request is handled: (keep) unchanged, (a) set by a fully
-    successful function 3, (b) re-based by the `repeatNonRead` branch (defect D9) -/
+    successful function 3, (b) re-based by the `repeatNonRead` branch: only for a retransmission of the
+    stored SELECT itself (function 3, its sequence number, its object octets) that directly follows it
+    (`update_frame_id_on_repeat`; defect D9 is repaired) -/
 inductive SelChange (s : OState) (f : Frag) (ctrl : AppCtrl) (func : Nat) (raw : List Nat) (l : List OOut)
     (fresh rebase : Prop) (sel' : Option Sel) : Prop where
   | keep : sel' = s.select → SelChange s f ctrl func raw l fresh rebase sel'
   | set : fresh → func = 3 → sel' = some ⟨ctrl.seq, f.id, s.now, raw⟩ → SelectAllZero l →
       SelChange s f ctrl func raw l fresh rebase sel'
-  | rebase (sel : Sel) : rebase → s.select = some sel → sel' = some { sel with frameId := f.id } →
+  | rebase (sel : Sel) : rebase → s.select = some sel →
+      (func = 3 ∧ sel.seq = ctrl.seq ∧ (sel.frameId + 1) % 4294967296 = f.id ∧ sel.objects = raw) →
+      sel' = some { sel with frameId := f.id } →
       SelChange s f ctrl func raw l fresh rebase sel'
 
 /-- summary of one request handled by `handleRequestFromIdle` (also used for a request handled during
@@ -1210,7 +1238,7 @@ theorem idle_spec {a a' : Acc} {f : Frag} {ctrl : AppCtrl} {func : Nat} {objects
     (h : handleRequestFromIdle a f ctrl func objects raw = some (a', sr)) :
     IdleSpec a a' f ctrl func objects raw := by
   rw [handleRequestFromIdle_eq] at h
-  obtain ⟨a1, olr, lq, lb, sb, l2, hres, rfl, -, hl2⟩ := idleTail_shape h
+  obtain ⟨a1, olr, lq, lb, sb, l2, hres, rfl, -, -, hl2⟩ := idleTail_shape h
   have hl2b : ∀ o ∈ l2, isExec o = false ∧ isSbo o = false := by
     intro o ho
     rcases hl2 with h | ⟨b, h⟩ <;> subst h <;> simp at ho
@@ -1274,10 +1302,14 @@ theorem idle_spec {a a' : Acc} {f : Frag} {ctrl : AppCtrl} {func : Nat} {objects
     obtain ⟨rfl, -⟩ := hres
     refine ⟨?_, ?_, ?_, ?_, ?_, ?_, .inl ?_, l2, rfl, fun o ho hs => by simp [(hl2b o ho).2] at hs,
       fun _ o ho => (hl2b o ho).1, ?_⟩
-    any_goals (dsimp only; split <;> rfl)
+    any_goals (dsimp only; split <;> (try split) <;> rfl)
     cases hsel : a.1.select with
     | none => exact .keep rfl
-    | some sel => exact .rebase sel ⟨resp, hc⟩ hsel rfl
+    | some sel =>
+      dsimp only
+      by_cases hcond : func = 3 ∧ sel.seq = ctrl.seq ∧ (sel.frameId + 1) % 4294967296 = f.id ∧ sel.objects = raw
+      · rw [if_pos hcond]; exact .rebase sel ⟨resp, hc⟩ hsel hcond rfl
+      · rw [if_neg hcond]; exact .keep rfl
   | broadcast m =>
     rw [hc] at hres
     dsimp only at hres
@@ -1342,11 +1374,11 @@ theorem popRequest_request {s s' : OState} {f : Frag} {ctrl : AppCtrl} {func : N
   · rename_i f' hp
     split at h
     · simp at h
-    · simp at h
-    · rename_i c fn ob rw hq
-      split at h
+    · split at h
       · simp at h
-      · simp only [Prod.mk.injEq, Popped.request.injEq] at h
+      · simp at h
+      · rename_i c fn ob rw hq
+        simp only [Prod.mk.injEq, Popped.request.injEq] at h
         obtain ⟨rfl, rfl, rfl, rfl, rfl, rfl⟩ := h
         exact ⟨rfl, hp, hq⟩
 
@@ -1385,9 +1417,9 @@ theorem afterRequest_pass {k : Acc → StepRes} (hk : ∀ a, Pass a (accOf (k a)
 def runPassBody (fuel : Nat) (a0 : Acc) : StepRes :=
   match popRequest a0.1 with
   | (s, .nothing) => afterRequest (runPass fuel) ({ s with pending := none }, a0.2)
-  | (s, .error src seq) =>
+  | (s, .error src bc seq) =>
     let a : Acc := (onLinkActivity { s with pending := none }, a0.2)
-    match writeErrorResponse a src seq with
+    match writeErrorResponse a src bc seq with
     | none => die a
     | some a => afterRequest (runPass fuel) a
   | (s, .request f ctrl func objects raw) =>
@@ -1417,7 +1449,7 @@ theorem runPassBody_pass {fuel : Nat} (ih : ∀ a, Pass a (accOf (runPass fuel a
     | nothing =>
       dsimp only
       refine .frame fp (.frame (b := ({ s with pending := none }, a0.2)) (by frame_simp) (afterRequest_pass ih _))
-    | error src seq =>
+    | error src bc seq =>
       dsimp only
       refine .frame fp (.frame (b := (onLinkActivity { s with pending := none }, a0.2)) (by frame_simp) ?_)
       split
@@ -1494,7 +1526,7 @@ theorem solWaitOnFragment_pass (a : Acc) (sr : Series) (dl : Nat) (cont : SolCon
       fun a1 => .frame (Frame.emitCb a1 _ rfl) (abortSeries_pass _ _)
     cases p with
     | nothing => dsimp only; exact .of_frame (by frame_simp)
-    | error src seq =>
+    | error src bc seq =>
       dsimp only
       exact .frame (b := (onLinkActivity s, a.2)) (by frame_simp) (hnew _)
     | request f ctrl func objects raw =>
@@ -1623,7 +1655,7 @@ theorem unsolWaitOnFragment_pass (a : Acc) (resp : Resp) (isNull : Bool) :
       rw [hp] at this; exact this
     cases p with
     | nothing => dsimp only; exact .frame fp (.of_frame (by frame_simp))
-    | error src seq =>
+    | error src bc seq =>
       dsimp only
       refine .frame fp (.frame (b := ({ s with pending := none }, a.2)) (by frame_simp) ?_)
       split
@@ -1643,7 +1675,8 @@ theorem unsolWaitOnFragment_pass (a : Acc) (resp : Resp) (isNull : Bool) :
       | unsolConfirm q =>
         dsimp only
         split
-        · refine .frame fpop (.frame (b := ({ (popped a).1 with lastBroadcast := none }, (popped a).2))
+        · refine .frame fpop (.frame (b := ({ (popped a).1 with lastBroadcast :=
+              if (popped a).1.unsolReported then none else (popped a).1.lastBroadcast }, (popped a).2))
             (by frame_simp) (.frame (Frame.emitCb _ (.unsolConfirmed q) rfl) (finishUnsol_pass _ _ _)))
         · exact .of_frame fpop
       | solConfirm q =>
@@ -1889,7 +1922,7 @@ theorem SelChange.append {s : OState} {f : Frag} {ctrl : AppCtrl} {func : Nat} {
     (hl : ∀ o ∈ l', isExec o = false) : SelChange s f ctrl func raw (l ++ l') fr rb sel' := by
   cases h with
   | keep h => exact .keep h
-  | rebase sel h1 h2 h3 => exact .rebase sel h1 h2 h3
+  | rebase sel h1 h2 h3 h4 => exact .rebase sel h1 h2 h3 h4
   | set h0 h1 h2 h3 =>
     refine .set h0 h1 h2 ?_
     intro g v i obj st hm
@@ -1902,7 +1935,7 @@ theorem SelChange.prepend {s : OState} {f : Frag} {ctrl : AppCtrl} {func : Nat} 
     (hl : ∀ o ∈ l', isExec o = false) : SelChange s f ctrl func raw (l' ++ l) fr rb sel' := by
   cases h with
   | keep h => exact .keep h
-  | rebase sel h1 h2 h3 => exact .rebase sel h1 h2 h3
+  | rebase sel h1 h2 h3 h4 => exact .rebase sel h1 h2 h3 h4
   | set h0 h1 h2 h3 =>
     refine .set h0 h1 h2 ?_
     intro g v i obj st hm
@@ -1992,6 +2025,347 @@ theorem PassInv.of_pass {a0 a c : Acc} (hp : Pass a c) (h : PassInv a0 a) : Pass
 
 theorem PassInv.start {a0 : Acc} (h : ∀ o ∈ a0.2, isExec o = false) : PassInv a0 a0 :=
   ⟨rfl, rfl, rfl, .inl ⟨.inl rfl, rfl, fun h0 => ⟨rfl, h0⟩, h⟩⟩
+
+/-! ## 9b. Every step consumes the fragment it works on -/
+
+theorem Frame.pending_none {a b : Acc} (h : Frame a b) (hp : a.1.pending = none) : b.1.pending = none := by
+  rcases h.pending with h | h
+  · exact h.trans hp
+  · exact h
+
+theorem Pass.pending_none {a c : Acc} (h : Pass a c) (hp : a.1.pending = none) : c.1.pending = none := by
+  induction h with
+  | refl => exact hp
+  | frame hf _ ih => exact ih (hf.pending_none hp)
+  | req f ctrl func objects raw hpend _ _ _ _ => rw [hp] at hpend; contradiction
+
+/-- the fragment the pass worked on was consumed, or the task is dead -/
+def PendDone (a : Acc) : Prop := a.1.pending = none ∨ a.1.mode = .dead
+
+theorem die_done (a : Acc) : PendDone (accOf (die a)) := .inr rfl
+
+theorem runPassBody_done (fuel : Nat) (a0 : Acc) : PendDone (accOf (runPassBody fuel a0)) := by
+  unfold runPassBody
+  cases hp : popRequest a0.1 with
+  | mk s p =>
+    cases p with
+    | nothing =>
+      dsimp only
+      exact .inl ((afterRequest_pass (runPass_pass fuel) _).pending_none rfl)
+    | error src bc seq =>
+      dsimp only
+      split
+      · exact die_done _
+      · rename_i a' hw
+        exact .inl ((afterRequest_pass (runPass_pass fuel) _).pending_none
+          ((Frame.writeErrorResponse hw).pending_none rfl))
+    | request f ctrl func objects raw =>
+      dsimp only
+      split
+      · exact die_done _
+      · rename_i a' sr hh
+        exact .inl ((Frame.enterSolWait _ _ _).pending_none ((idle_spec hh).pending.trans rfl))
+      · rename_i a' hh
+        exact .inl ((afterRequest_pass (runPass_pass fuel) _).pending_none ((idle_spec hh).pending.trans rfl))
+
+theorem runPass_done (fuel : Nat) (a : Acc) : PendDone (accOf (runPass (fuel + 1) a)) := by
+  rw [runPass_succ]
+  exact runPassBody_done _ _
+
+theorem runPass_passFuel_done (a : Acc) : PendDone (accOf (runPass passFuel a)) := runPass_done 63 a
+
+theorem idleWakes_of_pending {s : OState} (h : idleWakes s = false) : s.pending = none := by
+  unfold idleWakes at h
+  cases hp : s.pending with
+  | none => rfl
+  | some f => simp [hp] at h
+
+theorem afterDeferred_done {k : Acc → StepRes} (hk : ∀ a, PendDone (accOf (k a))) (a : Acc) (next : NextIdle) :
+    PendDone (accOf (afterDeferred k a next)) := by
+  unfold afterDeferred
+  dsimp only
+  split
+  · exact hk _
+  · rename_i h
+    have h' : idleWakes (finishPass a next).1 = false := by simpa using h
+    exact .inl (idleWakes_of_pending h')
+
+/-- the fragment was consumed, the task is dead, or it is blocked in a wait that will consume it at once -/
+def InWait1 (a : Acc) : Prop :=
+  (∃ r n t d, a.1.mode = .unsolWait r n t d) ∨ (∃ sr dl nx, a.1.mode = .solWait sr dl (.fromDeferred nx))
+
+def Rank1 (r : StepRes) : Prop := PendDone (accOf r) ∨ ∃ a, r = .blocked a ∧ InWait1 a
+
+theorem handleDeferredRead_inl_mode {a a' : Acc} {next : NextIdle} (h : handleDeferredRead a next = some (.inl a')) :
+    ∃ sr dl, a'.1.mode = .solWait sr dl (.fromDeferred next) := by
+  unfold handleDeferredRead at h
+  split at h
+  · simp at h
+  · dsimp only at h
+    split at h
+    · simp at h
+    · split at h
+      · simp only [Option.some.injEq, Sum.inl.injEq] at h
+        subst h
+        exact ⟨_, _, rfl⟩
+      · simp at h
+
+theorem afterUnsol_rank1 {k : Acc → StepRes} (hk : ∀ a, PendDone (accOf (k a))) (a : Acc) (next : NextIdle) :
+    Rank1 (afterUnsol k a next) := by
+  unfold afterUnsol
+  split
+  · exact .inl (die_done _)
+  · rename_i a' he
+    obtain ⟨sr, dl, h⟩ := handleDeferredRead_inl_mode he
+    exact .inr ⟨_, rfl, .inr ⟨sr, dl, next, h⟩⟩
+  · exact .inl (afterDeferred_done hk _ _)
+
+theorem startUnsolSeries_mode {a a' : Acc} {r : Resp} {n : Bool} (h : startUnsolSeries a r n = some a') :
+    ∃ r n t d, a'.1.mode = .unsolWait r n t d := by
+  unfold startUnsolSeries at h
+  split at h
+  · simp at h
+  · simp only [Option.some.injEq] at h
+    subst h
+    exact ⟨_, _, _, _, rfl⟩
+
+theorem checkUnsolicited_inl_mode {a a' : Acc} (h : checkUnsolicited a = some (.inl a')) :
+    ∃ r n t d, a'.1.mode = .unsolWait r n t d := by
+  unfold checkUnsolicited at h
+  dsimp only at h
+  repeat' split at h
+  all_goals first
+    | (simp at h; done)
+    | (rename_i hs
+       simp only [Option.some.injEq, Sum.inl.injEq] at h
+       subst h
+       exact startUnsolSeries_mode hs)
+
+theorem afterRequest_rank1 {k : Acc → StepRes} (hk : ∀ a, PendDone (accOf (k a))) (a : Acc) :
+    Rank1 (afterRequest k a) := by
+  unfold afterRequest
+  split
+  · exact .inl (die_done _)
+  · rename_i a' he
+    exact .inr ⟨_, rfl, .inl (checkUnsolicited_inl_mode he)⟩
+  · exact afterUnsol_rank1 hk _ _
+
+theorem resumeAfterSol_rank1 (a : Acc) (cont : SolCont) : Rank1 (resumeAfterSol a cont) := by
+  unfold resumeAfterSol
+  split
+  · exact afterRequest_rank1 runPass_passFuel_done _
+  · exact .inl (afterDeferred_done runPass_passFuel_done _ _)
+
+theorem resumeAfterSol_done (a : Acc) (next : NextIdle) :
+    PendDone (accOf (resumeAfterSol a (.fromDeferred next))) :=
+  afterDeferred_done runPass_passFuel_done _ _
+
+theorem abortSeries_rank1 (a : Acc) (cont : SolCont) : Rank1 (abortSeries a cont) := by
+  unfold abortSeries
+  exact resumeAfterSol_rank1 _ _
+
+theorem abortSeries_done (a : Acc) (next : NextIdle) : PendDone (accOf (abortSeries a (.fromDeferred next))) := by
+  unfold abortSeries
+  exact resumeAfterSol_done _ _
+
+/-- a fragment handled during the solicited confirm wait is consumed, or (`Confirm::NewRequest`) the
+    series is aborted with the fragment retained -/
+theorem solWaitOnFragment_done (a : Acc) (sr : Series) (dl : Nat) (cont : SolCont) :
+    (∃ a1, solWaitOnFragment a sr dl cont = abortSeries a1 cont) ∨
+    PendDone (accOf (solWaitOnFragment a sr dl cont)) := by
+  unfold solWaitOnFragment
+  cases hp : popRequest a.1 with
+  | mk s p =>
+    cases p with
+    | nothing => dsimp only; exact .inr (.inl rfl)
+    | error src bc seq => dsimp only; exact .inl ⟨_, rfl⟩
+    | request f ctrl func objects raw =>
+      dsimp only
+      split
+      any_goals exact .inl ⟨_, rfl⟩
+      · -- repeatRead
+        refine .inr (.inl ?_)
+        split <;> rfl
+      · -- unsolConfirm
+        exact .inr (.inl rfl)
+      · -- solConfirm
+        right
+        split
+        · exact .inl rfl
+        · have hp0 : (clearWrittenEvents ({ (emitCb ({ onLinkActivity s with pending := none }, a.2)
+              (.solConfirmed sr.ecsn)).1 with lastBroadcast := none },
+              (emitCb ({ onLinkActivity s with pending := none }, a.2) (.solConfirmed sr.ecsn)).2)).1.pending = none :=
+            (Frame.clearWrittenEvents _).pending_none rfl
+          generalize clearWrittenEvents _ = a4 at hp0 ⊢
+          split
+          · exact .inl ((resumeAfterSol_pass _ _).pending_none hp0)
+          · split
+            · exact die_done _
+            · rename_i a5 r5 hw
+              have hp5 : a5.1.pending = none :=
+                (Frame.writeSolicited hw).pending_none ((formatReadResponse_frame a4.1 false _ 0 a4.2).pending_none hp0)
+              split
+              · exact .inl ((resumeAfterSol_pass _ _).pending_none hp5)
+              · exact .inl hp5
+
+/-- a fragment handled during the unsolicited confirm wait is always consumed -/
+theorem unsolWaitOnFragment_done (a : Acc) (resp : Resp) (isNull : Bool) :
+    PendDone (accOf (unsolWaitOnFragment a resp isNull)) := by
+  unfold unsolWaitOnFragment
+  cases hp : popRequest a.1 with
+  | mk s p =>
+    cases p with
+    | nothing => dsimp only; exact .inl rfl
+    | error src bc seq =>
+      dsimp only
+      split
+      · exact die_done _
+      · rename_i a' hw
+        exact .inl ((Frame.writeErrorResponse hw).pending_none rfl)
+    | request f ctrl func objects raw =>
+      dsimp only
+      split
+      · -- unsolConfirm
+        split
+        · exact .inl ((finishUnsol_pass _ _ _).pending_none rfl)
+        · exact .inl rfl
+      · -- solConfirm
+        refine .inl ?_
+        split <;> rfl
+      · -- broadcast
+        split
+        · exact die_done _
+        · rename_i b hb
+          exact .inl ((processBroadcast_spec hb).pending.trans rfl)
+      · -- malformed
+        split
+        · exact die_done _
+        · rename_i b r' hw
+          exact .inl ((Frame.writeSolicited hw).pending_none rfl)
+      · -- newNonRead
+        split
+        · exact die_done _
+        · rename_i a2 r hn
+          have h2 : a2.1.pending = none := (handleNonRead_spec hn).pending.trans rfl
+          split
+          · exact die_done _
+          · rename_i a3 r3 hw
+            have h3 : a3.1.pending = none := by
+              cases r with
+              | none =>
+                simp only [Option.some.injEq, Prod.mk.injEq] at hw
+                obtain ⟨rfl, -⟩ := hw
+                exact h2
+              | some r0 =>
+                dsimp only at hw
+                split at hw
+                · contradiction
+                · rename_i a4 r4 hws
+                  simp only [Option.some.injEq, Prod.mk.injEq] at hw
+                  obtain ⟨rfl, -⟩ := hw
+                  exact (Frame.writeSolicited hws).pending_none h2
+            split
+            · exact .inl ((finishUnsol_pass _ _ _).pending_none h3)
+            · exact .inl h3
+      · -- newRead
+        rename_i hs' _
+        obtain ⟨d, hd⟩ := deferredSet_shape (onLinkActivity { s with pending := none }) f ctrl.seq hs'
+        refine .inl ?_
+        simp only [accOf]
+        rw [hd]
+        rfl
+      · rename_i rr hs' _
+        obtain ⟨d, hd⟩ := deferredSet_shape (onLinkActivity { s with pending := none }) f ctrl.seq hs'
+        refine .inl ?_
+        simp only [accOf]
+        rw [hd]
+        rfl
+      · -- repeatNonRead
+        refine .inl ?_
+        split <;> rfl
+
+theorem PendDone.pass {a c : Acc} (h : PendDone a) (hp : Pass a c) (hm : a.1.mode = .dead → c = a) : PendDone c := by
+  rcases h with h | h
+  · exact .inl (hp.pending_none h)
+  · rw [hm h]; exact .inr h
+
+/-- `dispatch` consumes the retained fragment, except that a new request arriving in the solicited confirm
+    wait of a response to a request (not of a deferred read) may leave the task blocked in another wait -/
+theorem dispatch_rank1 (a : Acc) : Rank1 (dispatch a) := by
+  by_cases hpn : a.1.pending = none
+  · exact .inl (.inl ((dispatch_pass a).pending_none hpn))
+  have hps : a.1.pending.isSome = true := by
+    cases h : a.1.pending with
+    | none => exact absurd h hpn
+    | some f => rfl
+  unfold dispatch
+  split
+  · rename_i h; exact .inl (.inr h)
+  · have hw : idleWakes a.1 = true := by unfold idleWakes; simp [hps]
+    rw [if_pos hw]
+    exact .inl (runPass_passFuel_done a)
+  · rw [if_pos hps]
+    rcases solWaitOnFragment_done a _ _ _ with ⟨a1, h⟩ | h
+    · rw [h]; exact abortSeries_rank1 _ _
+    · exact .inl h
+  · rw [if_pos hps]
+    exact .inl (unsolWaitOnFragment_done _ _ _)
+
+/-- from a state of `Rank1`, `dispatch` consumes the fragment -/
+theorem dispatch_done_of_rank1 (a : Acc) (h : InWait1 a) : PendDone (accOf (dispatch a)) := by
+  by_cases hpn : a.1.pending = none
+  · exact .inl ((dispatch_pass a).pending_none hpn)
+  have hps : a.1.pending.isSome = true := by
+    cases h : a.1.pending with
+    | none => exact absurd h hpn
+    | some f => rfl
+  rcases h with ⟨r, n, t, d, h⟩ | ⟨sr, dl, nx, h⟩
+  · unfold dispatch; rw [h]; dsimp only; rw [if_pos hps]; exact unsolWaitOnFragment_done _ _ _
+  · unfold dispatch; rw [h]; dsimp only; rw [if_pos hps]
+    rcases solWaitOnFragment_done a sr dl (.fromDeferred nx) with ⟨a1, h⟩ | h
+    · rw [h]; exact abortSeries_done _ _
+    · exact h
+
+theorem settle_of_done (fuel : Nat) (r : StepRes) (h : PendDone (accOf r)) : accOf (settle fuel r) = accOf r := by
+  cases fuel with
+  | zero => rfl
+  | succ n =>
+    unfold settle
+    cases r with
+    | panicked a => rfl
+    | blocked a =>
+      dsimp only
+      rcases h with h | h
+      · have h' : a.1.pending = none := h
+        simp [h']
+      · have h' : a.1.mode = .dead := h
+        simp [h']
+
+theorem settle_done (fuel : Nat) (r : StepRes) (h : Rank1 r) : PendDone (accOf (settle (fuel + 2) r)) := by
+  rcases h with hd | ⟨a, rfl, hw⟩
+  · rw [settle_of_done _ _ hd]; exact hd
+  · have hdd := dispatch_done_of_rank1 a hw
+    have key : settle (fuel + 2) (.blocked a) =
+        if a.1.pending.isSome then settle (fuel + 1) (dispatch a) else .blocked a := by
+      conv => lhs; unfold settle
+      rcases hw with ⟨r, n, t, d, h⟩ | ⟨sr, dl, nx, h⟩ <;> simp [h]
+    rw [key]
+    split
+    · rw [settle_of_done _ _ hdd]; exact hdd
+    · rename_i hc
+      left
+      cases hp : a.1.pending with
+      | none => exact hp
+      | some f => simp [hp] at hc
+
+/-- **every pass consumes the fragment it works on** (or the task dies) -/
+theorem quiesce_done (a : Acc) : PendDone (finishStep (settle 8 (dispatch a))) := by
+  rw [finishStep_eq]
+  exact settle_done 6 _ (dispatch_rank1 a)
+
+theorem quiesce_runPass_done (a : Acc) : PendDone (finishStep (settle 8 (runPass passFuel a))) := by
+  rw [finishStep_eq]
+  exact settle_done 6 _ (.inl (runPass_passFuel_done a))
 
 /-! ## 10. The step: prologue + pass -/
 
@@ -2198,8 +2572,11 @@ theorem step_sbo_needs_match (env : OEnv) (s : OState) (i : OInput) (o : OOut)
     (c) cleared by `.cut`, or the fragment the step works on was a unicast request with well-formed objects and
     (a) function 3 that was new (not a repeat), every handler status was 0 and the echo fitted:
         `select = ⟨seq, frame id, now, raw objects⟩`; or
-    (b) it took the `repeatNonRead` branch — ANY non-READ function whose sequence number and bytes equal the
-        last recorded request (defect D9) — and only `frameId` was overwritten with this fragment's id. -/
+    (b) it took the `repeatNonRead` branch (its sequence number and bytes equal the last recorded request, so
+        the step executed nothing) AND it is a retransmission of the stored SELECT itself that directly follows
+        it — function 3, the select's sequence number, the select's object octets, and a frame id that is the
+        select's plus one (mod 2^32) — and only `frameId` was overwritten with this fragment's id
+        (`update_frame_id_on_repeat`; defect D9 — a repeat of ANY last non-READ request re-based — is repaired). -/
 theorem step_select_change (env : OEnv) (s : OState) (i : OInput) :
     (Outstation.step env s i).1.select = s.select ∨
     (isCut i = true ∧ (Outstation.step env s i).1.select = none) ∨
@@ -2212,7 +2589,9 @@ theorem step_select_change (env : OEnv) (s : OState) (i : OInput) :
           SelectAllZero (Outstation.step env s i).2) ∨
        ((s.deferred = none → ¬ isCut i = true →
             ∃ last, s.lastReq = some last ∧ last.seq = ctrl.seq ∧ last.frag = f.data) ∧
+          (∀ o ∈ (Outstation.step env s i).2, isExec o = false) ∧
           ∃ sel, s.select = some sel ∧
+            func = 3 ∧ sel.seq = ctrl.seq ∧ (sel.frameId + 1) % 2 ^ 32 = f.id ∧ sel.objects = raw ∧
             (Outstation.step env s i).1.select = some { sel with frameId := f.id })) := by
   obtain ⟨a0, hst, hinv⟩ := step_inv env s i
   have hsel0 : ∀ x, x = a0.1.select → x = s.select ∨ (isCut i = true ∧ x = none) := by
@@ -2246,7 +2625,8 @@ theorem step_select_change (env : OEnv) (s : OState) (i : OInput) :
         apply hnd
         exact (lrKey_dup (hkeep s1 hd.keep1 hdn hcut) ctrl.seq f.data).mpr hex
       · rw [hs', hd.now1, hst.now]
-    | rebase sel hr hs1 hs' =>
+    | rebase sel hr hs1 hcond hs' =>
+      have hrep := hd.rep hr
       obtain ⟨resp, hc⟩ := hr
       rw [hc] at hcc
       obtain ⟨h0, h1, hb, ⟨hs, hobj⟩, last, hl, hl1, hl2, -⟩ := hcc
@@ -2257,7 +2637,7 @@ theorem step_select_change (env : OEnv) (s : OState) (i : OInput) :
         · rw [← h]; exact hs1
         · rw [h] at hs1; contradiction
       refine .inr (.inr ⟨f, ctrl, func, hs, raw, hst.curFrag hd.was, hd.parse, hb, h0, h1,
-        .inr ⟨?_, sel, hsel, hs'⟩⟩)
+        .inr ⟨?_, hrep, sel, hsel, hcond.1, hcond.2.1, hcond.2.2.1, hcond.2.2.2, hs'⟩⟩)
       intro hdn hcut
       exact (lrKey_dup (hkeep s1 hd.keep1 hdn hcut) ctrl.seq f.data).mp ⟨last, hl, hl1, hl2⟩
 
@@ -2294,16 +2674,65 @@ theorem step_cfg_now (env : OEnv) (s : OState) (i : OInput) :
   obtain ⟨a0, hst, hinv⟩ := step_inv env s i
   exact ⟨hinv.cfg.trans hst.cfg, hinv.now.trans hst.now⟩
 
--- BEGIN EVAL (concrete evaluation of the model, including the current `Db` component)
-/-! ## 12. Counterexample for the full trace-level statement (defect D9)
+theorem step_dead_stays (env : OEnv) (s : OState) (i : OInput) (hd : isDead s = true) :
+    isDead (Outstation.step env s i).1 = true := by
+  rw [step_dead env s i hd]
+  cases i <;> exact hd
 
-This section EVALUATES the model (including the current `Db` component) on one concrete input list. -/
+/-- **C04.6 (every step consumes the fragment it works on)**: no fragment is left over for a later step — after
+    every step of a live task the transport reader is empty (`pending = none`).  (The confirm waits may retain a
+    fragment — `Confirm::NewRequest` — but the wait entered next, or the idle pass, handles it within the same
+    step: `settle`.)  An input that is ignored (`setScript`, a rejected `.rx`, `.cut` …) keeps the state. -/
+theorem step_pending (env : OEnv) (s : OState) (i : OInput) (h : s.pending = none ∨ isDead s = true) :
+    (Outstation.step env s i).1.pending = none ∨ isDead (Outstation.step env s i).1 = true := by
+  have conv : ∀ a : Acc, PendDone a → a.1.pending = none ∨ isDead a.1 = true := by
+    intro a ha
+    rcases ha with ha | ha
+    · exact .inl ha
+    · exact .inr ((isDead_iff _).mpr ha)
+  cases hd : isDead s with
+  | true => exact .inr (step_dead_stays env s i hd)
+  | false =>
+    have hpn : s.pending = none := by
+      rcases h with h | h
+      · exact h
+      · rw [hd] at h; contradiction
+    rw [step_eq_old env s i hd]
+    cases i with
+    | setScript g => exact .inl hpn
+    | rx src dst data =>
+      rw [step_rx_old]
+      cases hr : rxAccept env s src dst data with
+      | none => exact .inl hpn
+      | some f => exact conv _ (quiesce_done _)
+    | tick ms => exact conv _ (quiesce_done _)
+    | txn items => rw [step_txn_old]; exact conv _ (quiesce_done _)
+    | add t idx cls => exact conv _ (quiesce_done _)
+    | cut =>
+      unfold stepOld
+      dsimp only
+      split
+      · exact .inl hpn
+      · exact conv _ (quiesce_runPass_done _)
+
+/-- the state after construction has no fragment pending -/
+theorem start_pending (cfg : OCfg) (evMax : Nat) : (Outstation.start cfg evMax).1.pending = none := by
+  unfold Outstation.start
+  rw [finishStep_eq]
+  exact ((runPass_pass _ _).trans (settle_pass _ _)).pending_none rfl
+
+-- BEGIN EVAL (concrete evaluation of the model, including the current `Db` component)
+/-! ## 12. Regression examples for the trace-level statement (defect D9 is repaired)
+
+This section EVALUATES the model (including the current `Db` component) on concrete input lists. -/
 
 /-- one g12v1 (CROB) object, qualifier 0x17, index 0 -/
 def cexObjs : List Nat := [12, 1, 0x17, 1, 0, 3, 1, 100, 0, 0, 0, 100, 0, 0, 0, 0]
 def cexSelect : List Nat := [0xC0, 3] ++ cexObjs
 def cexWrite : List Nat := [0xC1, 0x02, 0x50, 0x01, 0x00, 0x07, 0x07, 0x00]
 def cexOperate : List Nat := [0xC1, 4] ++ cexObjs
+/-- a solicited CONFIRM, sequence number 0 -/
+def cexConfirm : List Nat := [0xC0, 0]
 
 /-- SELECT seq 0; WRITE seq 1; the identical WRITE again; OPERATE seq 1 with the SELECT's objects -/
 def cexInputs : List OInput :=
@@ -2311,14 +2740,14 @@ def cexInputs : List OInput :=
 
 def sboCount (outs : List (List OOut)) : Nat := (outs.map fun l => (l.filter isSbo).length).sum
 
-/-- **D9**: an OPERATE is executed although a WRITE (and its retransmission) was received between the SELECT
-    and the OPERATE: the retransmitted WRITE takes the `repeatNonRead` branch, which re-bases the stored
-    SELECT's frame id, so the OPERATE "directly follows". -/
-theorem operate_after_intervening_write_counterexample :
-    sboCount (Outstation.run {} (Outstation.start {} 10).1 cexInputs).2 = 1 := by
+/-- **D9 regression** (the former counterexample run): the OPERATE after a WRITE and its retransmission is NOT
+    executed any more — the retransmitted WRITE takes the `repeatNonRead` branch, which no longer re-bases the
+    stored SELECT's frame id (only a retransmission of the SELECT itself does). -/
+theorem operate_after_intervening_write_rejected :
+    sboCount (Outstation.run {} (Outstation.start {} 10).1 cexInputs).2 = 0 := by
   decide +kernel
 
-/-- without the retransmission the OPERATE is rejected -/
+/-- without the retransmission the OPERATE is rejected as well -/
 theorem operate_after_single_write_rejected :
     sboCount (Outstation.run {} (Outstation.start {} 10).1
       [.rx 1 1024 cexSelect, .rx 1 1024 cexWrite, .rx 1 1024 cexOperate]).2 = 0 := by
@@ -2328,6 +2757,20 @@ theorem operate_after_single_write_rejected :
 theorem select_operate_executed_once_example :
     sboCount (Outstation.run {} (Outstation.start {} 10).1
       [.rx 1 1024 cexSelect, .rx 1 1024 cexOperate]).2 = 1 := by
+  decide +kernel
+
+/-- the legitimate path still works: SELECT, its byte-identical retransmission (which re-bases the select's frame
+    id), OPERATE — executed exactly once -/
+theorem select_retransmitted_then_operate_example :
+    sboCount (Outstation.run {} (Outstation.start {} 10).1
+      [.rx 1 1024 cexSelect, .rx 1 1024 cexSelect, .rx 1 1024 cexOperate]).2 = 1 := by
+  decide +kernel
+
+/-- a stray fragment (here a solicited CONFIRM) between the SELECT and its retransmission breaks the chain: the
+    retransmission does not directly follow the SELECT, the select is not re-based, the OPERATE is rejected -/
+theorem select_stray_retransmitted_then_operate_rejected :
+    sboCount (Outstation.run {} (Outstation.start {} 10).1
+      [.rx 1 1024 cexSelect, .rx 1 1024 cexConfirm, .rx 1 1024 cexSelect, .rx 1 1024 cexOperate]).2 = 0 := by
   decide +kernel
 
 -- END EVAL
@@ -2508,8 +2951,71 @@ theorem stateAt_cfg (env : OEnv) (s0 : OState) (inputs : List OInput) (n : Nat) 
   | zero => rfl
   | succ n ih => rw [(stateAt_cfg_now env s0 inputs n (by omega)).1]; exact ih (by omega)
 
+theorem CurFrag.delivered {env : OEnv} {s : OState} {i : OInput} {f : Frag} (h : CurFrag env s i f)
+    (hp : s.pending = none) : ∃ src dst data, i = .rx src dst data ∧ rxAccept env s src dst data = some f := by
+  rcases h with h | ⟨_, h⟩
+  · exact h
+  · rw [hp] at h; contradiction
+
+theorem CurFrag.unique {env : OEnv} {s : OState} {i : OInput} {f g : Frag} (h : CurFrag env s i f)
+    (h' : CurFrag env s i g) (hp : s.pending = none) : g = f := by
+  obtain ⟨src, dst, data, hi, hr⟩ := h.delivered hp
+  obtain ⟨src', dst', data', hi', hr'⟩ := h'.delivered hp
+  rw [hi] at hi'
+  simp only [OInput.rx.injEq] at hi'
+  obtain ⟨rfl, rfl, rfl⟩ := hi'
+  rw [hr] at hr'
+  simpa using hr'.symm
+
+/-- a delivered fragment carries the pre-step frame counter, and the counter advances by one (mod 2^32) -/
+theorem step_frameId_delivered {env : OEnv} {s : OState} {i : OInput} {f : Frag} (h : CurFrag env s i f)
+    (hp : s.pending = none) :
+    (Outstation.step env s i).1.frameId = (s.frameId + 1) % 2 ^ 32 ∧ f.id = s.frameId := by
+  obtain ⟨src, dst, data, rfl, hr⟩ := h.delivered hp
+  have := step_frameId env s (.rx src dst data)
+  simp only [hr, Option.isSome_some, if_true] at this
+  exact ⟨this, (rxAccept_id hr).1⟩
+
+/-- a step that works on no fragment leaves the frame counter alone -/
+theorem step_frameId_idle {env : OEnv} {s : OState} {i : OInput} (h : ∀ f, ¬ CurFrag env s i f) :
+    (Outstation.step env s i).1.frameId = s.frameId := by
+  have := step_frameId env s i
+  cases i with
+  | rx src dst data =>
+    cases hr : rxAccept env s src dst data with
+    | none => simpa [hr] using this
+    | some f => exact absurd (.inl ⟨src, dst, data, rfl, hr⟩) (h f)
+  | _ => exact this
+
+theorem stateAt_dead_succ (env : OEnv) (s0 : OState) (inputs : List OInput) (n : Nat) (h : n < inputs.length)
+    (hd : isDead (stateAt env s0 inputs n) = true) : isDead (stateAt env s0 inputs (n + 1)) = true := by
+  rw [stateAt_succ env s0 inputs n h]
+  exact step_dead_stays env _ _ hd
+
+/-- along a run from a state with an empty transport reader, the reader is empty before every step (unless the
+    task died) -/
+theorem stateAt_pending (env : OEnv) (s0 : OState) (h0 : s0.pending = none) (inputs : List OInput) (n : Nat)
+    (hn : n ≤ inputs.length) :
+    (stateAt env s0 inputs n).pending = none ∨ isDead (stateAt env s0 inputs n) = true := by
+  induction n with
+  | zero => exact .inl h0
+  | succ n ih =>
+    rw [stateAt_succ env s0 inputs n (by omega)]
+    exact step_pending env _ _ (ih (by omega))
+
+/-- every fragment delivered in the steps `j < m < n` is a retransmission of the SELECT (unicast, well-formed,
+    function 3, sequence number `seq`, object octets `raw`), and step `m` executed nothing -/
+def Retransmitted (env : OEnv) (s0 : OState) (inputs : List OInput) (j n seq : Nat) (raw : List Nat) : Prop :=
+  ∀ (m : Nat) (hm : m < inputs.length), j < m → m < n →
+    ∀ f, CurFrag env (stateAt env s0 inputs m) inputs[m] f →
+      ∃ cm hsm, parseRequest f.data = .request cm 3 (.ok hsm) raw ∧ f.broadcast = none ∧ cm.seq = seq ∧
+        ∀ o ∈ outsAt env s0 inputs m hm, isExec o = false
+
 /-- `sel` was stored by the successful function-3 request of step `j < n` and survived — possibly re-based by
-    `repeatNonRead` — up to (the state before) step `n`, with no effective `.cut` in between -/
+    retransmissions of that SELECT — up to (the state before) step `n`, with no effective `.cut` in between.
+    Frame-counter bookkeeping (for runs from an empty transport reader, shorter than 2^32 steps, task alive):
+    the counter is `d` ahead of `sel.frameId + 1`, where `d = 0` exactly as long as every fragment delivered
+    since step `j` was a retransmission that re-based the select. -/
 def SelFrom (env : OEnv) (s0 : OState) (inputs : List OInput) (n : Nat) (sel : Sel) : Prop :=
   ∃ (j : Nat) (hj : j < inputs.length), j < n ∧ ∃ f ctrl hs raw,
     CurFrag env (stateAt env s0 inputs j) inputs[j] f ∧
@@ -2517,22 +3023,11 @@ def SelFrom (env : OEnv) (s0 : OState) (inputs : List OInput) (n : Nat) (sel : S
     SelectAllZero (outsAt env s0 inputs j hj) ∧
     sel.seq = ctrl.seq ∧ sel.objects = raw ∧
     sel.time = stepNow (stateAt env s0 inputs j) inputs[j] ∧
-    ∀ (m : Nat) (hm : m < inputs.length), j < m → m < n → isCut inputs[m] = true →
-      isDead (stateAt env s0 inputs m) = true
-
-theorem SelFrom.extend {env : OEnv} {s0 : OState} {inputs : List OInput} {n : Nat} {sel sel' : Sel}
-    (h : SelFrom env s0 inputs n sel) (hn : n < inputs.length)
-    (hcut : isCut inputs[n] = true → isDead (stateAt env s0 inputs n) = true)
-    (h1 : sel'.seq = sel.seq) (h2 : sel'.objects = sel.objects) (h3 : sel'.time = sel.time) :
-    SelFrom env s0 inputs (n + 1) sel' := by
-  obtain ⟨j, hj, hjn, f, ctrl, hs, raw, hcf, hp, hb, hz, e1, e2, e3, hr⟩ := h
-  refine ⟨j, hj, by omega, f, ctrl, hs, raw, hcf, hp, hb, hz, h1.trans e1, h2.trans e2, h3.trans e3, ?_⟩
-  intro m hm hjm hmn hc
-  by_cases hmn' : m < n
-  · exact hr m hm hjm hmn' hc
-  · have : m = n := by omega
-    subst this
-    exact hcut hc
+    (∀ (m : Nat) (hm : m < inputs.length), j < m → m < n → isCut inputs[m] = true →
+      isDead (stateAt env s0 inputs m) = true) ∧
+    (s0.pending = none → n ≤ 2 ^ 32 → isDead (stateAt env s0 inputs n) = false →
+      ∃ d, d + j < n ∧ (stateAt env s0 inputs n).frameId = (sel.frameId + 1 + d) % 2 ^ 32 ∧
+        (d = 0 → Retransmitted env s0 inputs j n ctrl.seq raw))
 
 /-- provenance of the stored SELECT along any run from a state without one -/
 theorem select_provenance (env : OEnv) (s0 : OState) (h0 : s0.select = none) (inputs : List OInput) (n : Nat)
@@ -2543,6 +3038,7 @@ theorem select_provenance (env : OEnv) (s0 : OState) (h0 : s0.select = none) (in
   | succ n ih =>
     have hlt : n < inputs.length := by omega
     have hsucc := stateAt_succ env s0 inputs n hlt
+    have e32 : (2:Nat) ^ 32 = 4294967296 := by decide
     have hcut : isCut inputs[n] = true → isDead (stateAt env s0 inputs n) = true := by
       intro hc
       cases hdd : isDead (stateAt env s0 inputs n) with
@@ -2555,35 +3051,117 @@ theorem select_provenance (env : OEnv) (s0 : OState) (h0 : s0.select = none) (in
         have := step_cut_select env _ hdd
         rw [← hi, ← hsucc, hs] at this
         contradiction
+    -- alive after the step: alive before it, with an empty transport reader
+    have halive : s0.pending = none → isDead (stateAt env s0 inputs (n + 1)) = false →
+        isDead (stateAt env s0 inputs n) = false ∧ (stateAt env s0 inputs n).pending = none := by
+      intro hp0 ha
+      cases hdd : isDead (stateAt env s0 inputs n) with
+      | true => rw [stateAt_dead_succ env s0 inputs n hlt hdd] at ha; contradiction
+      | false =>
+        refine ⟨rfl, ?_⟩
+        rcases stateAt_pending env s0 hp0 inputs n (by omega) with h | h
+        · exact h
+        · rw [hdd] at h; contradiction
+    have hcuts : ∀ j, (∀ (m : Nat) (hm : m < inputs.length), j < m → m < n → isCut inputs[m] = true →
+          isDead (stateAt env s0 inputs m) = true) →
+        ∀ (m : Nat) (hm : m < inputs.length), j < m → m < n + 1 → isCut inputs[m] = true →
+          isDead (stateAt env s0 inputs m) = true := by
+      intro j hr m hm hjm hmn hc
+      by_cases hmn' : m < n
+      · exact hr m hm hjm hmn' hc
+      · have : m = n := by omega
+        subst this
+        exact hcut hc
     rw [hsucc] at hs
     rcases step_select_change env (stateAt env s0 inputs n) inputs[n] with h | ⟨-, h⟩ |
       ⟨f, ctrl, func, hs', raw, hcf, hp, hb, hf0, hf1, h⟩
-    · rw [h] at hs
-      exact (ih (by omega) sel hs).extend hlt hcut rfl rfl rfl
+    · -- unchanged
+      rw [h] at hs
+      obtain ⟨j, hj, hjn, fj, cj, hsj, rawj, hcfj, hpj, hbj, hz, e1, e2, e3, hr, hch⟩ := ih (by omega) sel hs
+      refine ⟨j, hj, by omega, fj, cj, hsj, rawj, hcfj, hpj, hbj, hz, e1, e2, e3, hcuts j hr, ?_⟩
+      intro hp0 hle ha
+      obtain ⟨han, hpn⟩ := halive hp0 ha
+      obtain ⟨d, hd1, hd2, hd3⟩ := hch hp0 (by omega) han
+      rw [hsucc]
+      by_cases hcur : ∃ g, CurFrag env (stateAt env s0 inputs n) inputs[n] g
+      · obtain ⟨g, hg⟩ := hcur
+        refine ⟨d + 1, by omega, ?_, fun h => by omega⟩
+        rw [(step_frameId_delivered hg hpn).1, hd2, e32]
+        omega
+      · refine ⟨d, by omega, ?_, fun hd0 => ?_⟩
+        · rw [step_frameId_idle (fun g hg => hcur ⟨g, hg⟩), hd2]
+        · intro m hm hjm hmn g hg
+          by_cases hmn' : m < n
+          · exact hd3 hd0 m hm hjm hmn' g hg
+          · have : m = n := by omega
+            subst this
+            exact absurd ⟨g, hg⟩ hcur
     · rw [h] at hs; contradiction
-    · rcases h with ⟨h3, -, hsel, hz⟩ | ⟨-, sel0, hsel0, hsel⟩
-      · rw [hsel] at hs
+    · rcases h with ⟨h3, -, hsel, hz⟩ | ⟨-, hne, sel0, hsel0, h3, hq, hfid, hobj, hsel⟩
+      · -- set by the SELECT of this step
+        rw [hsel] at hs
         simp only [Option.some.injEq] at hs
         subst hs h3
-        exact ⟨n, hlt, by omega, f, ctrl, hs', raw, hcf, hp, hb, hz, rfl, rfl, rfl,
-          fun m _ h1 h2 => by omega⟩
-      · rw [hsel] at hs
+        refine ⟨n, hlt, by omega, f, ctrl, hs', raw, hcf, hp, hb, hz, rfl, rfl, rfl,
+          fun m _ h1 h2 => by omega, ?_⟩
+        intro hp0 hle ha
+        obtain ⟨han, hpn⟩ := halive hp0 ha
+        obtain ⟨hF, hid⟩ := step_frameId_delivered hcf hpn
+        refine ⟨0, by omega, ?_, fun _ m _ h1 h2 => by omega⟩
+        rw [hsucc, hF]
+        show _ = (f.id + 1 + 0) % 2 ^ 32
+        rw [hid]
+      · -- re-based by a retransmission of the SELECT
+        rw [hsel] at hs
         simp only [Option.some.injEq] at hs
-        subst hs
-        exact (ih (by omega) sel0 hsel0).extend hlt hcut rfl rfl rfl
+        subst hs h3
+        obtain ⟨j, hj, hjn, fj, cj, hsj, rawj, hcfj, hpj, hbj, hz, e1, e2, e3, hr, hch⟩ := ih (by omega) sel0 hsel0
+        refine ⟨j, hj, by omega, fj, cj, hsj, rawj, hcfj, hpj, hbj, hz, e1, e2, e3, hcuts j hr, ?_⟩
+        intro hp0 hle ha
+        obtain ⟨han, hpn⟩ := halive hp0 ha
+        obtain ⟨d, hd1, hd2, hd3⟩ := hch hp0 (by omega) han
+        obtain ⟨hF, hid⟩ := step_frameId_delivered hcf hpn
+        have hd0 : d = 0 := by
+          rw [← hid, ← hfid, e32] at hd2
+          rw [e32] at hle
+          omega
+        refine ⟨0, by omega, ?_, fun _ => ?_⟩
+        · rw [hsucc, hF]
+          show _ = (f.id + 1 + 0) % 2 ^ 32
+          rw [hid]
+        · intro m hm hjm hmn g hg
+          by_cases hmn' : m < n
+          · exact hd3 hd0 m hm hjm hmn' g hg
+          · have : m = n := by omega
+            subst this
+            have := CurFrag.unique hcf hg hpn
+            subst this
+            exact ⟨ctrl, hs', by rw [← e2, hobj]; exact hp, hb, by rw [← hq, e1], hne⟩
 
-/-- **C04.5 (`operate_needs_select_partial`)**: along EVERY input list, from any state without a stored
-    SELECT (in particular `Outstation.start`), a select-before-operate actuation at step `k` implies a step
+theorem outsAt_dead (env : OEnv) (s0 : OState) (inputs : List OInput) (k : Nat) (hk : k < inputs.length)
+    (hd : isDead (stateAt env s0 inputs k) = true) : outsAt env s0 inputs k hk = [] := by
+  unfold outsAt
+  rw [step_dead env _ _ hd]
+
+/-- **C04.5 (`operate_needs_select`, full trace statement)**: along EVERY input list, from any state without a
+    stored SELECT (in particular `Outstation.start`), a select-before-operate actuation at step `k` implies a step
     `j < k` that handled a unicast, well-formed, new function-3 request whose handler statuses were all 0,
     with byte-identical raw objects and sequence number one less (mod 16), no effective `.cut` in between,
-    and the clock advanced by at most `stimeout` between the two requests.
+    and the clock advanced by at most `stimeout` between the two requests [so far: the former
+    `operate_needs_select_partial`]; AND every fragment delivered strictly between `j` and `k` is a
+    retransmission of that SELECT that executed nothing: for every `j < m < k` and every fragment `f` step `m`
+    works on, `f` is unicast, parses as a well-formed function-3 request with the SELECT's object octets and the
+    SELECT's sequence number, and no executing callback (`isExec`: control / write / freeze / time / restart,
+    begin/end fragment) appears in the outputs of step `m`.
 
-    MISSING relative to the full statement (kept below): the constraint on the fragments delivered strictly
-    between `j` and `k`.  What the model guarantees there (by `step_select_change` (b) and `step_frameId`) is
-    only `f_k.id = (sel.frameId + 1) mod 2^32` where `sel.frameId` is the id of the SELECT fragment OR of the
-    last fragment that took the `repeatNonRead` branch — see `operate_after_intervening_write_counterexample`
-    (defect D9), which refutes the full statement. -/
-theorem operate_needs_select_partial (env : OEnv) (s0 : OState) (h0 : s0.select = none) (inputs : List OInput)
+    Hypotheses of the last conjunct (stated inside, the first ten conjuncts are unconditional):
+    * `s0.pending = none`: the transport reader is empty in the initial state (true after construction,
+      `start_pending`; afterwards it is empty before every step, `step_pending`).  A fragment left in the reader
+      of an arbitrary `s0` carries an arbitrary frame id, unrelated to the frame counter.
+    * `k < 2 ^ 32`: the frame counter is a `u32` that wraps (`step_frameId`; Rust `u32::wrapping_add`), so
+      after exactly 2^32 delivered fragments the id "select's id + 1" comes round again — in the model as in the
+      Rust code.  Runs shorter than 2^32 inputs cannot alias. -/
+theorem operate_needs_select (env : OEnv) (s0 : OState) (h0 : s0.select = none) (inputs : List OInput)
     (k : Nat) (hk : k < inputs.length) (o : OOut) (ho : o ∈ outsAt env s0 inputs k hk) (hsbo : isSbo o = true) :
     ∃ (j : Nat) (hj : j < inputs.length), j < k ∧ ∃ fj cj hsj fk ck hsk raw,
       CurFrag env (stateAt env s0 inputs j) inputs[j] fj ∧
@@ -2594,44 +3172,69 @@ theorem operate_needs_select_partial (env : OEnv) (s0 : OState) (h0 : s0.select 
       ck.seq = seq4Next cj.seq ∧
       stepNow (stateAt env s0 inputs k) inputs[k] - stepNow (stateAt env s0 inputs j) inputs[j] ≤
         s0.cfg.stimeout ∧
-      ∀ (m : Nat) (hm : m < inputs.length), j < m → m < k → isCut inputs[m] = true →
-        isDead (stateAt env s0 inputs m) = true := by
+      (∀ (m : Nat) (hm : m < inputs.length), j < m → m < k → isCut inputs[m] = true →
+        isDead (stateAt env s0 inputs m) = true) ∧
+      (s0.pending = none → k < 2 ^ 32 →
+        ∀ (m : Nat) (hm : m < inputs.length), j < m → m < k →
+          ∀ f, CurFrag env (stateAt env s0 inputs m) inputs[m] f →
+            ∃ cm hsm, parseRequest f.data = .request cm 3 (.ok hsm) raw ∧ f.broadcast = none ∧
+              cm.seq = cj.seq ∧ ∀ o ∈ outsAt env s0 inputs m hm, isExec o = false) := by
   obtain ⟨fk, ck, hsk, raw, sel, hcf, hp, hb, hsel, hm⟩ :=
     step_sbo_needs_match env (stateAt env s0 inputs k) inputs[k] o ho hsbo
-  obtain ⟨m1, -, m3, m4⟩ := (match_operate_iff _ _ _ _ _ _).mp hm
-  obtain ⟨j, hj, hjk, fj, cj, hsj, rawj, hcfj, hpj, hbj, hz, e1, e2, e3, hr⟩ :=
+  obtain ⟨m1, m2, m3, m4⟩ := (match_operate_iff _ _ _ _ _ _).mp hm
+  obtain ⟨j, hj, hjk, fj, cj, hsj, rawj, hcfj, hpj, hbj, hz, e1, e2, e3, hr, hch⟩ :=
     select_provenance env s0 h0 inputs k (by omega) sel hsel
   rw [stateAt_cfg env s0 inputs k (by omega)] at m4
   subst e2
-  refine ⟨j, hj, hjk, fj, cj, hsj, fk, ck, hsk, sel.objects, hcfj, hpj, hbj, hz, hcf, m3 ▸ hp, hb, ?_, ?_, hr⟩
+  refine ⟨j, hj, hjk, fj, cj, hsj, fk, ck, hsk, sel.objects, hcfj, hpj, hbj, hz, hcf, m3 ▸ hp, hb, ?_, ?_, hr, ?_⟩
   · rw [m1, e1]
   · rw [← e3]; exact m4
+  · intro hp0 hlen
+    have halive : isDead (stateAt env s0 inputs k) = false := by
+      cases hdd : isDead (stateAt env s0 inputs k) with
+      | false => rfl
+      | true => rw [outsAt_dead env s0 inputs k hk hdd] at ho; simp at ho
+    have hpk : (stateAt env s0 inputs k).pending = none := by
+      rcases stateAt_pending env s0 hp0 inputs k (by omega) with h | h
+      · exact h
+      · rw [halive] at h; contradiction
+    obtain ⟨d, hd1, hd2, hd3⟩ := hch hp0 (by omega) halive
+    have hid := (step_frameId_delivered hcf hpk).2
+    have e32 : (2:Nat) ^ 32 = 4294967296 := by decide
+    have hd0 : d = 0 := by
+      rw [← hid, m2, e32] at hd2
+      rw [e32] at hlen
+      omega
+    exact hd3 hd0
 
-/-
-FULL statement (FALSE in the model, hence in the Rust: defect D9): as `operate_needs_select_partial`, plus
-  ∀ m, j < m → m < k → ∀ f, CurFrag env (stateAt env s0 inputs m) inputs[m] f → f.data = fj.data
-("every fragment delivered strictly between the SELECT and the OPERATE is a byte-identical retransmission of the
-SELECT").  `operate_after_intervening_write_counterexample` exhibits j = 0, k = 3 with two WRITE fragments between.
--/
-
-/-- `operate_needs_select_partial` applies to every run from the state after construction
-    (`start_select`); stated here for the first conjuncts only, the full conclusion is obtained by
-    `operate_needs_select_partial env _ (start_select cfg evMax) …` -/
-theorem operate_needs_select_partial_start (env : OEnv) (cfg : OCfg) (evMax : Nat) (inputs : List OInput)
+/-- `operate_needs_select` applies to every run from the state after construction (`start_select`,
+    `start_pending`); stated here for the SELECT step and the fragments in between only, the full conclusion is
+    obtained by `operate_needs_select env _ (start_select cfg evMax) …` -/
+theorem operate_needs_select_start (env : OEnv) (cfg : OCfg) (evMax : Nat) (inputs : List OInput)
     (k : Nat) (hk : k < inputs.length) (o : OOut)
     (ho : o ∈ outsAt env (Outstation.start cfg evMax).1 inputs k hk) (hsbo : isSbo o = true) :
     ∃ (j : Nat) (hj : j < inputs.length), j < k ∧ ∃ fj cj hsj raw,
       CurFrag env (stateAt env (Outstation.start cfg evMax).1 inputs j) inputs[j] fj ∧
       parseRequest fj.data = .request cj 3 (.ok hsj) raw ∧
-      SelectAllZero (outsAt env (Outstation.start cfg evMax).1 inputs j hj) :=
-  let ⟨j, hj, hjk, fj, cj, hsj, _, _, _, raw, h1, h2, _, h4, _⟩ :=
-    operate_needs_select_partial env _ (start_select cfg evMax) inputs k hk o ho hsbo
-  ⟨j, hj, hjk, fj, cj, hsj, raw, h1, h2, h4⟩
+      SelectAllZero (outsAt env (Outstation.start cfg evMax).1 inputs j hj) ∧
+      (inputs.length < 2 ^ 32 →
+        ∀ (m : Nat) (hm : m < inputs.length), j < m → m < k →
+          ∀ f, CurFrag env (stateAt env (Outstation.start cfg evMax).1 inputs m) inputs[m] f →
+            ∃ cm hsm, parseRequest f.data = .request cm 3 (.ok hsm) raw ∧ f.broadcast = none ∧
+              cm.seq = cj.seq ∧ ∀ o ∈ outsAt env (Outstation.start cfg evMax).1 inputs m hm, isExec o = false) :=
+  let ⟨j, hj, hjk, fj, cj, hsj, _, _, _, raw, h1, h2, _, h4, _, _, _, _, _, _, h11⟩ :=
+    operate_needs_select env _ (start_select cfg evMax) inputs k hk o ho hsbo
+  ⟨j, hj, hjk, fj, cj, hsj, raw, h1, h2, h4, fun hlen => h11 (start_pending cfg evMax) (by omega)⟩
 
 -- BEGIN EVAL
--- the hypotheses of `operate_needs_select_partial` are satisfiable: the D9 trace, step 3
-example : ∃ o ∈ outsAt {} (Outstation.start {} 10).1 cexInputs 3 (by decide), isSbo o = true := by
+-- the hypotheses of `operate_needs_select` are satisfiable: SELECT, its retransmission, OPERATE — step 2 actuates
+-- (and the run is from a state with no stored SELECT and an empty transport reader, shorter than 2^32)
+example : ∃ o ∈ outsAt {} (Outstation.start {} 10).1
+    [.rx 1 1024 cexSelect, .rx 1 1024 cexSelect, .rx 1 1024 cexOperate] 2 (by decide), isSbo o = true := by
   decide +kernel
+example : (Outstation.start {} 10).1.select = none ∧ (Outstation.start {} 10).1.pending = none :=
+  ⟨start_select _ _, start_pending _ _⟩
+example : (2 : Nat) < 2 ^ 32 := by decide
 
 -- END EVAL
 
